@@ -122,3 +122,55 @@ func (p *Path) decideRaw(c *smt.Term) bool {
 	p.PC = append(p.PC, c)
 	return true
 }
+
+// DecideChecked is Decide with a feasibility test by the solver: a branch
+// that contradicts the path condition is not explored. The test is a
+// semantic fact of (path condition, c), so re-executions of the path prefix
+// stay aligned with the recorded decisions.
+func (p *Path) DecideChecked(c *smt.Term) bool {
+	if c.IsTrue() {
+		return true
+	}
+	if c.IsFalse() {
+		return false
+	}
+	if p.M.Feasible == nil {
+		return p.Decide(c)
+	}
+	feasible := func(t *smt.Term) bool {
+		var sb strings.Builder
+		for _, h := range p.PC {
+			fmt.Fprintf(&sb, "%d,", h.ID)
+		}
+		fmt.Fprintf(&sb, "?%d", t.ID)
+		key := sb.String()
+		concMu.Lock()
+		v, ok := feasCache[key]
+		concMu.Unlock()
+		if ok {
+			return v
+		}
+		sat, okS := p.M.Feasible(append(append([]*smt.Term{}, p.PC...), t))
+		if !okS {
+			sat = true // undecided: explore
+		}
+		concMu.Lock()
+		feasCache[key] = sat
+		concMu.Unlock()
+		return sat
+	}
+	ft, ff := feasible(c), feasible(smt.Not(c))
+	switch {
+	case ft && !ff:
+		p.PC = append(p.PC, c)
+		return true
+	case ff && !ft:
+		p.PC = append(p.PC, smt.Not(c))
+		return false
+	case !ft && !ff:
+		p.Stop("infeasible")
+	}
+	return p.Decide(c)
+}
+
+var feasCache = map[string]bool{}
